@@ -19,6 +19,8 @@ EXTENDS Integers, Sequences, FiniteSets, TLC
 
 VARIABLES
   mon,       \* content of the stored full monitor, -1 = no monitor stored
+  monLazy,   \* a lazy removal of the monitor key (archive_persisted_channel) was accepted and has
+             \* not (yet) landed
   upds,      \* update files: [key number -> content]
   lazy,      \* keys of update files whose lazy removal was accepted and has not (yet) landed
   reported,  \* update ids the persister reported as persisted (Completed)
@@ -26,7 +28,7 @@ VARIABLES
              \* crash x subset of landed lazy removals
   unsafe     \* a removal deleted an update file that recovery still needed
 
-avars == <<mon, upds, lazy, reported, recs, unsafe>>
+avars == <<mon, monLazy, upds, lazy, reported, recs, unsafe>>
 
 Max(S) == CHOOSE x \in S : \A y \in S : y <= x
 Min(S) == CHOOSE x \in S : \A y \in S : x <= y
@@ -34,18 +36,22 @@ Without(f, S) == [k \in DOMAIN f \ S |-> f[k]]
 With(f, k, v) == [j \in DOMAIN f \cup {k} |-> IF j = k THEN v ELSE f[j]]
 
 AInit ==
-  /\ mon = -1 /\ upds = <<>> /\ lazy = {} /\ reported = {} /\ recs = {} /\ unsafe = FALSE
+  /\ mon = -1 /\ monLazy = FALSE /\ upds = <<>> /\ lazy = {} /\ reported = {} /\ recs = {}
+  /\ unsafe = FALSE
 
 -----------------------------------------------------------------------------
 (* store operations issued by the persister; `applied` = it took effect     *)
 (* (a failing operation may or may not have)                                *)
 AWriteMon(c, applied) ==
   /\ mon' = IF applied THEN c ELSE mon
+  /\ monLazy' = IF applied THEN FALSE ELSE monLazy   \* a write cancels a pending removal
   /\ recs' = {}
   /\ UNCHANGED <<upds, lazy, reported, unsafe>>
 
-ARemoveMon(applied) ==
-  /\ mon' = IF applied THEN -1 ELSE mon
+ARemoveMon(isLazy, applied) ==
+  /\ IF ~applied \/ mon = -1 THEN UNCHANGED <<mon, monLazy>>
+     ELSE IF isLazy THEN monLazy' = TRUE /\ UNCHANGED mon
+     ELSE mon' = -1 /\ monLazy' = FALSE
   /\ recs' = {}
   /\ UNCHANGED <<upds, lazy, reported, unsafe>>
 
@@ -53,7 +59,7 @@ AWriteUpd(k, c, applied) ==
   /\ upds' = IF applied THEN With(upds, k, c) ELSE upds
   /\ lazy' = IF applied THEN lazy \ {k} ELSE lazy   \* a write cancels a pending removal
   /\ recs' = {}
-  /\ UNCHANGED <<mon, reported, unsafe>>
+  /\ UNCHANGED <<mon, monLazy, reported, unsafe>>
 
 (* Clean-up never deletes an update that recovery still needs: an existing  *)
 (* update file may only go when the stored monitor already includes it.     *)
@@ -65,39 +71,50 @@ ARemoveUpd(k, isLazy, applied) ==
      ELSE IF isLazy THEN lazy' = lazy \cup {k} /\ UNCHANGED upds
      ELSE upds' = Without(upds, {k}) /\ lazy' = lazy \ {k}
   /\ recs' = {}
-  /\ UNCHANGED <<mon, reported>>
+  /\ UNCHANGED <<mon, monLazy, reported>>
 
 (* a store operation outside the monitor / update keys of this channel *)
-AOther == recs' = {} /\ UNCHANGED <<mon, upds, lazy, reported, unsafe>>
+AOther == recs' = {} /\ UNCHANGED <<mon, monLazy, upds, lazy, reported, unsafe>>
 
 (* the persister reports update `id` (or the new monitor, id 0) as persisted *)
 AReport(id) ==
   /\ reported' = reported \cup {id}
-  /\ UNCHANGED <<mon, upds, lazy, recs, unsafe>>
+  /\ UNCHANGED <<mon, monLazy, upds, lazy, recs, unsafe>>
+
+(* The caller asks for the channel to be archived (ChainMonitor does so only for a monitor that *)
+(* is fully resolved): from here on nothing has to be recoverable for it any more -- but what   *)
+(* is found must still be readable (never "err" / "panic").                                     *)
+AArchive ==
+  /\ reported' = {}
+  /\ UNCHANGED <<mon, monLazy, upds, lazy, recs, unsafe>>
 
 (* an accepted lazy removal lands *)
 ALand(k) ==
   /\ k \in lazy
   /\ upds' = Without(upds, {k}) /\ lazy' = lazy \ {k}
   /\ recs' = {}
-  /\ UNCHANGED <<mon, reported, unsafe>>
+  /\ UNCHANGED <<mon, monLazy, reported, unsafe>>
 
 (* A crash here, with the lazy removals `land` landed, followed by recovery *)
 (* gave: kind "ok" (monitor with latest update id rid; eq = it equals the   *)
 (* in-memory monitor as of rid once at the same chain tip), "none" (no      *)
 (* monitor found), "err" (recovery refused), "panic".  rf = a store read of *)
 (* the recovery itself was made to fail.                                    *)
-ARec(land, kind, rid, eq, rf) ==
+ARec(land, landmon, kind, rid, eq, rf) ==
   /\ land \subseteq lazy
+  /\ landmon => monLazy
   /\ recs' = recs \cup {[kind |-> kind, rid |-> rid, eq |-> eq, rf |-> rf]}
-  /\ UNCHANGED <<mon, upds, lazy, reported, unsafe>>
+  /\ UNCHANGED <<mon, monLazy, upds, lazy, reported, unsafe>>
 
 (* the node really crashes: lazy removals that did not land are lost *)
-ACrash(land) ==
+ACrash(land, landmon) ==
   /\ land \subseteq lazy
+  /\ landmon => monLazy
   /\ upds' = Without(upds, land) /\ lazy' = {}
+  /\ mon' = IF landmon THEN -1 ELSE mon
+  /\ monLazy' = FALSE
   /\ recs' = {}
-  /\ UNCHANGED <<mon, reported, unsafe>>
+  /\ UNCHANGED <<reported, unsafe>>
 
 -----------------------------------------------------------------------------
 (* The property, judged on one recovery outcome r.                          *)
